@@ -234,6 +234,8 @@ func init() {
 			return r
 		},
 		zz + "Symbolic": func(it *Interp, fr *frame, a []Value) Value { return it.ctx.True },
+		// IsConst(x): the value is a constant on this path (no fork); natively always true
+		zz + "IsConst": func(it *Interp, fr *frame, a []Value) Value { return it.ctx.Bool(termArg(a[0]).IsConst()) },
 		zz + "Yield":    func(it *Interp, fr *frame, a []Value) Value { it.yield(); return nil },
 		zz + "ClockAdvance": func(it *Interp, fr *frame, a []Value) Value {
 			it.advance(termArg(a[0]))
